@@ -53,6 +53,7 @@ def channel_max_obeyed(ctx, prog):
     reports = []
     try:
         c10.run_bmc(ctx, prog, K, 'dev', reports)
+        c10.run_inductive(ctx, prog, ctx.q(3, 5), 'dev', reports)
     except (Unsupported, c10.Inconclusive) as e:
         ctx.inconclusive.append(f"channel table BMC: {type(e).__name__}: {e}")
     for (desc, maxv, prefix, ops, what) in reports:
